@@ -576,13 +576,19 @@ def puf_arms():
     """the two cfg arms of parse_unknown_fields and the call site: parameter counts"""
     src = strip_test_mods(strip_comments(read("src/variable_versions/data_number.rs")))
     arms = []
-    for m in re.finditer(r"#\[cfg\((not\()?feature\s*=\s*\"parse_unknown_fields\"\)?\)\]\s*fn\s+parse_unknown_fields\s*\(", src):
+    # the helper is whichever function carries the feature's cfg attribute (its name may change)
+    names = set()
+    for m in re.finditer(r"#\[cfg\((not\()?feature\s*=\s*\"parse_unknown_fields\"\)?\)\]\s*(?:#\[[^\]]*\]\s*)*(?:pub(?:\([^)]*\))?\s+)?fn\s+(\w+)\s*\(", src):
         i = m.end() - 1
         j = match_brace(src, i, "(", ")")
         params = [p.strip() for p in split_top(src[i + 1 : j]) if p.strip()]
         arms.append(("off" if m.group(1) else "on", len(params)))
+        names.add(m.group(2))
+    if len(names) != 1:
+        return arms, []
+    fname = re.escape(names.pop())
     calls = []
-    for m in re.finditer(r"(?<!fn )parse_unknown_fields\s*\(", src):
+    for m in re.finditer(r"(?<!fn )%s\s*\(" % fname, src):
         before = src[max(0, m.start() - 3) : m.start()]
         if before.endswith("fn "):
             continue
